@@ -4,7 +4,7 @@
    ChecksumFile.ReadAt with len(b)=len, cap(b)=cap; write_at/append/size_of/scrub transcribe WriteAt/append/
    Size/Scrub; run_ck / run_plain run an op sequence on the checksummed file / on an ordinary file. *)
 From Coq Require Import List NArith ZArith.
-From BLB Require Import Lib.CRC C08.CRCTab C08.Model C08.Proofs.
+From BLB Require Import Lib.CRC C08.CRCTab C08.Model C08.Proofs C08.Proofs2.
 Import ListNotations.
 Open Scope N_scope.
 
@@ -37,3 +37,25 @@ Theorem ckfile_refines_plain_refuted :
   exists ops, no_tamper ops /\ ~ refines_plain ops.
 Proof. exact refines_plain_refuted_lemma. Qed.
 Print Assumptions ckfile_refines_plain_refuted.
+
+(* [FULL] corruption detection. r is a sound raw file, Inv_raw says every block is non-empty data followed by its
+   little-endian CRC-32C, block k exists, and r' differs from r by ONE burst of at most 32 bits anywhere in the stored
+   bytes of block k, data or checksum or straddling both, all other blocks untouched. Then every ReadAt that touches
+   block k, wherever it starts, with or without spare capacity, returns the corruption error together with exactly
+   the sound bytes the file holds from off up to the start of block k, that is n = k x blockDataLength - off bytes
+   given as the data portions of the untouched verified blocks, and no byte of block k. Every ReadAt that does not
+   touch block k returns exactly what it returned on r. Scrub reports corruption. Built on
+   Lib.CRCProofs.crc_detects_burst_raw. The bytes are characterised through blocks_data, the data portions readBlock
+   delivers for the blocks of r, their identification with the plain content abs r belongs to the refinement theorem
+   listed under not_yet_proved *)
+Theorem ckfile_detects_burst :
+  forall r r' k,
+    Inv_raw r -> HL + BL * k < lenN r -> burst_in_block r r' k ->
+    (forall off len cap, touches k off len ->
+        read_at r' off len cap =
+          (drop (off mod DL) (blocks_data r (off / DL) (N.to_nat (k - off / DL))), E_CORRUPT) /\
+        lenN (fst (read_at r' off len cap)) = k * DL - off) /\
+    (forall off len cap, ~ touches k off len -> read_at r' off len cap = read_at r off len cap) /\
+    snd (scrub r') = E_CORRUPT.
+Proof. exact detects_burst_inv_lemma. Qed.
+Print Assumptions ckfile_detects_burst.
